@@ -165,7 +165,10 @@ class ExpRun:
             if not self.sc.get("lazy_init"):
                 s.initialize()
         for phase, n in timeline:
-            getattr(s, phase)(n)
+            if phase == "warmup":
+                s.warmup(n, tune_freq=self.sc.get("tune_freq", 0.1))
+            else:
+                s.sample(n)
         R = chain_of(s)
         acc = [np.array(a, float) for a in s.get_history()["history"]["_acc"]] if s._is_initialized else [1]
         np.random.set_state(saved)
@@ -179,11 +182,30 @@ class ExpRun:
             return [self.W]
         return [k, self.W - k]
 
-    def _do_phase(self, inc, phase, n):
+    def _do_phase(self, inc, phase, n, batch=0):
         self.cur_op_done = 0
         if phase == "warmup" and not inc.with_warmup:
             inc.warmup_after_restore = True
-        getattr(inc.s, phase)(n)
+        if phase == "warmup":
+            inc.s.warmup(n, tune_freq=self.sc.get("tune_freq", 0.1))
+        elif batch:
+            # sample batches go to the simulated disk; they must not influence the chain and every batch written must be
+            # the corresponding slice of the chain produced by this call
+            n0 = len(inc.s._samples) if inc.s._is_initialized else 0
+            self.fs.batches.clear()
+            inc.s.sample(n, batch_size=int(batch), sample_path="/simfs/batches/")
+            self.ctx.fault("batch_writer_active")
+            rows = [np.array(x, float).reshape(-1) for x in inc.s._samples[n0:]]
+            for path, arrs in sorted(self.fs.batches.items()):
+                k = int(arrs["batch_id"])
+                blk = np.array(arrs["samples"], float).reshape(len(arrs["samples"]), -1)
+                want = rows[k * int(batch):(k + 1) * int(batch)]
+                ok = len(want) == blk.shape[0] and all(bit_equal(a, b) for a, b in zip(blk, want))
+                if not ok:
+                    self.ctx.violate(PROP, "batch_differs_from_chain", self._sig(), batch=k, path=path)
+                    break
+        else:
+            getattr(inc.s, phase)(n)
         inc.n_steps += n
         self.timeline = self._tl_add(self.timeline, phase, n)
 
@@ -206,7 +228,7 @@ class ExpRun:
             if o in ("sample", "warmup"):
                 n = int(op["n"])
                 try:
-                    self._do_phase(inc, o, n)
+                    self._do_phase(inc, o, n, batch=op.get("batch", 0))
                     if len(self.case["ops"]) > 1:
                         ctx.nontrivial = True
                     if o == "warmup":
@@ -325,6 +347,9 @@ class ExpRun:
                 s.set_state(s.get_state())
         elif what == "get_history":
             s.get_history()
+        elif what == "set_history_roundtrip":
+            if s._is_initialized:
+                s.set_history(s.get_history())
         elif what == "get_samples":
             if s._is_initialized and len(s._samples):
                 S = s.get_samples()
@@ -464,6 +489,8 @@ def gen_exp_case(r, tier):
     sc["iface"] = "exp"
     sc["W"] = r.choice([0, 0, 3, 7, 12])
     if sc["W"] and r.random() < 0.3:
+        sc["tune_freq"] = r.choice([0.25, 0.5, 0.34])
+    if sc["W"] and r.random() < 0.3:
         sc["W_split"] = r.randint(1, sc["W"] - 1)      # the warm-up is given as two warmup() calls
     sc["cb"] = r.random() < 0.8
     sc["lazy_init"] = r.random() < 0.5
@@ -485,6 +512,8 @@ def gen_exp_case(r, tier):
         elif x < 0.30 and can_crash_inside and has_ck:
             ops.append({"op": "crash_in_step", "j": r.randint(0, 3 * n)})
         ops.append({"op": "sample", "n": n})
+        if r.random() < 0.12:
+            ops[-1]["batch"] = r.randint(1, max(1, n))
         left -= n
         # NOTE: no warm-up phase is generated after the sampling phase has begun.  A first version did (it is how the
         # interpreter came to model timelines), and reported that warm-up *resumed after a restore* differs from the
@@ -503,7 +532,7 @@ def gen_exp_case(r, tier):
                 ops.append({"op": "sample", "n": r.randint(1, 4)})      # in-flight work lost by the crash
             ops.append({"op": "crash_restart", "mode": r.choice(["same_process", "new_process"])})
         if r.random() < 0.3:
-            ops.append({"op": "benign", "what": r.choice(["repr", "get_state", "set_state_roundtrip",
+            ops.append({"op": "benign", "what": r.choice(["repr", "get_state", "set_state_roundtrip", "set_history_roundtrip",
                                                           "get_history", "get_samples", "save_other"])})
     if r.random() < 0.25:
         ops.append({"op": "reinit_check", "n": r.randint(1, 5)})
